@@ -120,7 +120,7 @@ def file_hash(paths):
 def build_driver():
     """Extraction (ExtrOcamlBasic only) + OCaml driver; rebuilt when any model source changed."""
     d = os.path.join(BUILD, "ocaml"); os.makedirs(d, exist_ok=True)
-    srcs = [p for p in coq_sources() if "/Model/" in p or "/Base/" in p or "/Extract/" in p]
+    srcs = [p for p in coq_sources() if "/Model/" in p or "/Base/" in p or "/Extract/" in p or p.endswith("/Generated.v")]
     srcs.append(os.path.join(VERIF, "ocaml", "driver.ml"))
     hv = file_hash(srcs)
     stamp = os.path.join(d, "stamp")
